@@ -1501,4 +1501,195 @@ theorem whTargetsPlain_of_B {d : Dir} (h : whTargetsPlainB d = true) : WhTargets
   simp only [hwo, Bool.and_eq_true, Bool.not_eq_true'] at this
   exact this
 
+/-! ## `serve` is `readdir` at every directory -/
+
+theorem getChild_map (kids : List (Str × Tree)) (n : Str) :
+    getChild (kids.map childOf) n = (lookupKid kids n).map fun t => childOf (n, t) := by
+  induction kids with
+  | nil => rfl
+  | cons p ps ih =>
+    obtain ⟨m, t⟩ := p
+    simp only [List.map_cons, getChild, lookupKid_cons, childOf]
+    by_cases h : m = n
+    · subst h; simp
+    · simp [h, ih, childOf]
+
+theorem serve_attr (om : OpaqueMode) (t : Tree) : (serve om t).attr = t.attr := by
+  cases t with
+  | file a => simp [serve_file, Lower.attr, Tree.attr]
+  | dir a k => simp [serve_dir, Lower.attr, Tree.attr]
+
+theorem lookupKid_served (isRoot : Bool) (kids : List (Str × Tree)) (n : Str) :
+    lookupKid (servedKidsOf isRoot kids) n =
+      if (isRoot && isLandmark n) = true then none else lookupKid kids n := by
+  unfold servedKidsOf
+  cases isRoot with
+  | false => simp
+  | true =>
+    simp only [if_true, Bool.true_and]
+    rw [lookupKid_filter (fun n => !isLandmark n)]
+    cases isLandmark n <;> simp
+
+theorem lookupKid_mem {β} {l : List (Str × β)} {x : Str} {t : β} (h : lookupKid l x = some t) : (x, t) ∈ l := by
+  induction l with
+  | nil => simp [lookupKid] at h
+  | cons p ps ih =>
+    obtain ⟨n, t'⟩ := p
+    rw [lookupKid_cons] at h
+    by_cases hn : n = x
+    · subst hn; simp at h; subst h; exact List.mem_cons_self ..
+    · simp [hn] at h; exact List.mem_cons_of_mem _ (ih h)
+
+/-- `serve` at one directory shows exactly what `readdir` lists for the node of that directory, with the
+same type bits and inode source. -/
+theorem serve_matches_readdir (om : OpaqueMode) (isRoot : Bool) (base : Nat) (a : Attr)
+    (kids : List (Str × Tree)) {ents : List DirEnt}
+    (h : readdir (dirOfTree isRoot base a kids) = some ents) (x : Str) (hx : isDots x = false) :
+    (∃ e ∈ ents, e.name = x) ↔
+      (lookupKid (serveKids om (servedKidsOf isRoot kids) (servedKidsOf isRoot kids)) x).isSome = true := by
+  obtain ⟨d, hd⟩ : ∃ d, d = dirOfTree isRoot base a kids := ⟨_, rfl⟩
+  obtain ⟨sk, hsk⟩ : ∃ sk, sk = servedKidsOf isRoot kids := ⟨_, rfl⟩
+  rw [← hd] at h
+  rw [← hsk]
+  have hroot : d.isRoot = isRoot := by rw [hd]; rfl
+  have hch : d.children = kids.map childOf := by rw [hd]; rfl
+  -- a normal child named x ⇔ the served children have a real x
+  have normal_iff : hasNormal d x = true ↔ hasReal sk x = true := by
+    rw [hasNormal_iff, hasReal_iff]
+    constructor
+    · rintro ⟨c, hc, hcn, hn⟩
+      rw [hcn] at hn
+      obtain ⟨_, hl, hw⟩ := isNormal_iff.mp hn
+      refine ⟨hw, ?_⟩
+      rw [hsk, lookupKid_served, ← hroot, hl]
+      simp only [Bool.false_eq_true, if_false]
+      rw [hch, List.mem_map] at hc
+      obtain ⟨p, hp, rfl⟩ := hc
+      cases hlk : lookupKid kids x with
+      | some t => rfl
+      | none => exact absurd hcn ((lookupKid_none.mp hlk) p hp)
+    · rintro ⟨hw, hs⟩
+      rw [hsk, lookupKid_served] at hs
+      by_cases hl : (isRoot && isLandmark x) = true
+      · simp [hl] at hs
+      · simp only [hl, if_false] at hs
+        cases hlk : lookupKid kids x with
+        | none => simp [hlk] at hs
+        | some t =>
+          refine ⟨childOf (x, t), ?_, rfl, ?_⟩
+          · rw [hch]; exact List.mem_map_of_mem (lookupKid_mem hlk)
+          · show isNormal d.isRoot x = true
+            exact isNormal_iff.mpr ⟨hx, by simpa [hroot] using hl, hw⟩
+  have hsn := served_name (om := om) sk x
+  constructor
+  · rintro ⟨e, he, hen⟩
+    rcases (mem_readdir h e).mp he with hdot | ⟨c, hc, hnorm, hce⟩ | ⟨c, hc, t, hwo, hno, hce⟩
+    · exfalso
+      simp only [dotEnts, List.mem_cons, List.mem_nil_iff, or_false] at hdot
+      have : isDots x = true := by rcases hdot with rfl | rfl <;> (rw [← hen]; decide)
+      rw [hx] at this; cases this
+    · have hcx : c.name = x := (normalEnt_eq hce).1 ▸ hen
+      have hr : hasReal sk x = true := normal_iff.mp (hasNormal_iff.mpr ⟨c, hc, hcx, hnorm⟩)
+      rw [serveKids_real hr]
+      obtain ⟨_, hs⟩ := hasReal_iff.mp hr
+      cases hlk : lookupKid sk x with
+      | none => rw [hlk] at hs; cases hs
+      | some t => rfl
+    · have htx : t = x := (whEnt_eq hce).1 ▸ hen
+      subst htx
+      obtain ⟨hcn, hnm, _⟩ := whOf_eq_some.mp hwo
+      have hr : hasReal sk t = false := by
+        cases hh : hasReal sk t with
+        | false => rfl
+        | true => rw [normal_iff.mpr hh] at hno; cases hno
+      have hside : ∀ p ∈ sk, isWh p.1 = false → p.1 ≠ t := by
+        intro p hp hpw hpt
+        have : hasReal sk t = true := by
+          rw [hasReal_iff]; refine ⟨hpt ▸ hpw, ?_⟩
+          cases hlk : lookupKid sk t with
+          | some _ => rfl
+          | none => exact absurd hpt ((lookupKid_none.mp hlk) p hp)
+        rw [hr] at this; cases this
+      rw [serveKids_noreal hr sk hside]
+      have hm : mkWh t ≠ opaqueMarker := hcn ▸ hnm
+      simp only [hm, if_false]
+      rw [hsk, lookupKid_served]
+      have : (isRoot && isLandmark (mkWh t)) = false := by simp [wh_not_landmark (isWh_mkWh t)]
+      simp only [this, Bool.false_eq_true, if_false]
+      rw [hch, List.mem_map] at hc
+      obtain ⟨p, hp, rfl⟩ := hc
+      cases hlk : lookupKid kids (mkWh t) with
+      | some _ => rfl
+      | none => exact absurd hcn ((lookupKid_none.mp hlk) p hp)
+  · intro hs
+    unfold classify lookupReal at hsn
+    by_cases hw : isWh x = true
+    · simp only [hw, if_true] at hsn
+      by_cases hwf : hasWhiteoutFor sk x = true
+      · -- a whiteout of a `.wh.` name: listed (this is the defect the property theorems name)
+        simp only [hasWhiteoutFor, Bool.and_eq_true, bne_iff_ne, ne_eq, hasName] at hwf
+        obtain ⟨hname, hm⟩ := hwf
+        rw [hsk, lookupKid_served] at hname
+        have hl : (isRoot && isLandmark (mkWh x)) = false := by simp [wh_not_landmark (isWh_mkWh x)]
+        simp only [hl, Bool.false_eq_true, if_false] at hname
+        cases hlk : lookupKid kids (mkWh x) with
+        | none => rw [hlk] at hname; cases hname
+        | some t =>
+          have hc : childOf (mkWh x, t) ∈ d.children := by
+            rw [hch]; exact List.mem_map_of_mem (lookupKid_mem hlk)
+          have hwo : whOf d.isRoot (childOf (mkWh x, t)).name = some x :=
+            whOf_eq_some.mpr ⟨rfl, hm, by simpa [hroot, childOf] using hl⟩
+          have hno : hasNormal d x = false := by
+            cases hh : hasNormal d x with
+            | false => rfl
+            | true =>
+              obtain ⟨hw', _⟩ := hasReal_iff.mp (normal_iff.mp hh)
+              rw [hw] at hw'; cases hw'
+          have hsome := readdir_some_wh h hc hwo hno
+          cases hce : whEnt d.base x (childOf (mkWh x, t)) with
+          | none => simp [hce] at hsome
+          | some e =>
+            exact ⟨e, (mem_readdir h e).mpr (Or.inr (Or.inr ⟨_, hc, x, hwo, hno, hce⟩)), (whEnt_eq hce).1⟩
+      · simp only [hwf, Bool.false_eq_true, if_false] at hsn
+        rw [hsn] at hs; cases hs
+    · have hw' : isWh x = false := by simpa using hw
+      simp only [hw', Bool.false_eq_true, if_false] at hsn
+      cases hlk : lookupKid sk x with
+      | some t =>
+        have hr : hasReal sk x = true := hasReal_iff.mpr ⟨hw', by simp [hlk]⟩
+        obtain ⟨c, hc, hcn, hn⟩ := hasNormal_iff.mp (normal_iff.mpr hr)
+        have hsome := readdir_some_normal h hc hn
+        cases hce : normalEnt d.base c with
+        | none => simp [hce] at hsome
+        | some e =>
+          exact ⟨e, (mem_readdir h e).mpr (Or.inr (Or.inl ⟨c, hc, hn, hce⟩)), (normalEnt_eq hce).1.trans hcn⟩
+      | none =>
+        simp only [hlk] at hsn
+        by_cases hwf : hasWhiteoutFor sk x = true
+        · simp only [hasWhiteoutFor, Bool.and_eq_true, bne_iff_ne, ne_eq, hasName] at hwf
+          obtain ⟨hname, hm⟩ := hwf
+          rw [hsk, lookupKid_served] at hname
+          have hl : (isRoot && isLandmark (mkWh x)) = false := by simp [wh_not_landmark (isWh_mkWh x)]
+          simp only [hl, Bool.false_eq_true, if_false] at hname
+          cases hlk2 : lookupKid kids (mkWh x) with
+          | none => rw [hlk2] at hname; cases hname
+          | some t =>
+            have hc : childOf (mkWh x, t) ∈ d.children := by
+              rw [hch]; exact List.mem_map_of_mem (lookupKid_mem hlk2)
+            have hwo : whOf d.isRoot (childOf (mkWh x, t)).name = some x :=
+              whOf_eq_some.mpr ⟨rfl, hm, by simpa [hroot, childOf] using hl⟩
+            have hno : hasNormal d x = false := by
+              cases hh : hasNormal d x with
+              | false => rfl
+              | true =>
+                obtain ⟨_, hs'⟩ := hasReal_iff.mp (normal_iff.mp hh)
+                rw [hlk] at hs'; cases hs'
+            have hsome := readdir_some_wh h hc hwo hno
+            cases hce : whEnt d.base x (childOf (mkWh x, t)) with
+            | none => simp [hce] at hsome
+            | some e =>
+              exact ⟨e, (mem_readdir h e).mpr (Or.inr (Or.inr ⟨_, hc, x, hwo, hno, hce⟩)), (whEnt_eq hce).1⟩
+        · simp only [hwf, Bool.false_eq_true, if_false] at hsn
+          rw [hsn] at hs; cases hs
+
 end SV.Overlay
